@@ -640,6 +640,9 @@ pub fn check(property: &str, tier: Tier, base_seed: u64) -> i32 {
                     *known_hits.entry(x.class.clone()).or_insert(0) += 1;
                     continue;
                 }
+                if corpus_failed.iter().any(|c: &Value| c["class"] == x.class) {
+                    continue;
+                }
                 println!("violation: scenario={} class={} regression-corpus :: {}", sc.id(), x.class, x.detail);
                 println!("VIOLATION property={} replay={}", property, f.display());
                 new_violations += 1;
